@@ -25,6 +25,18 @@ def opaque(kind):
     return Raw(lambda ex, st, n: Opaque(kind))
 
 
+
+def _native(target):
+    """replay: call the real hook on a real instance of its schema class (the model's `self` carries no state)"""
+    def call(args):
+        import importlib
+        modname, qual = target.split(":")
+        cls_name, meth = qual.split(".")
+        cls = getattr(importlib.import_module(modname), cls_name)
+        a = {k: v for k, v in args.items() if k != "self"}
+        return getattr(cls(), meth)(**a)
+    return call
+
 SCHEMA = Inst("Schema")
 JS = "ahbicht.json_serialization.tree_schema:"
 
@@ -35,6 +47,7 @@ class TokenDeserialize:
     """Token(type, value) of the two loaded strings"""
     params = dict(self=SCHEMA, data=record(value=Str(), type=Str()))
     raises = {}
+    call_native = _native(JS + "TokenSchema.deserialize")
 
     def post_is_the_token(self, data, result):
         return isinstance(result, Token) and result.type == data["type"] and result.value == data["value"]
@@ -45,6 +58,7 @@ class TreeDeserialize:
     """Tree(data, children) of the loaded rule name and the loaded children list (the same list object)"""
     params = dict(self=SCHEMA, data=record(data=Str(), children=opaque("inst:list")))
     raises = {}
+    call_native = _native(JS + "TreeSchema.deserialize")
 
     def post_is_the_tree(self, data, result):
         return isinstance(result, Tree) and result.data == data["data"] and result.children is data["children"]
@@ -56,6 +70,7 @@ class PrepareTree:
     """dump side, a sub-tree: wrapped as (token=None, tree=the sub-tree)"""
     params = dict(self=SCHEMA, data=Inst("Tree", data=Str(), children=opaque("inst:list")))
     raises = {}
+    call_native = _native(JS + "_TokenOrTreeSchema.prepare_tree_for_serialization")
 
     def post_wraps_the_tree(self, data, result):
         return result.token is None and result.tree is data
@@ -67,6 +82,7 @@ class PrepareToken:
     """dump side, a token: wrapped as (token=the token, tree=None)"""
     params = dict(self=SCHEMA, data=Inst("Token", value=Str(), type=Str()))
     raises = {}
+    call_native = _native(JS + "_TokenOrTreeSchema.prepare_tree_for_serialization")
 
     def post_wraps_the_token(self, data, result):
         return result.tree is None and result.token is data
@@ -78,6 +94,7 @@ class UnwrapTree:
     params = dict(self=SCHEMA, data=record(token=Raw(lambda ex, st, n: __import__("pyvc.values").values.sv_none()),
                                            tree=Inst("Tree", data=Str(), children=opaque("inst:list"))))
     raises = {}
+    call_native = _native(JS + "_TokenOrTreeSchema.deserialize")
 
     def post_is_the_loaded_tree(self, data, result):
         return result is data["tree"]
@@ -90,6 +107,147 @@ class UnwrapToken:
     params = dict(self=SCHEMA, data=record(token=Inst("Token", value=Str(nonempty=True), type=Str()),
                                            tree=Raw(lambda ex, st, n: __import__("pyvc.values").values.sv_none())))
     raises = {}
+    call_native = _native(JS + "_TokenOrTreeSchema.deserialize")
 
     def post_is_the_loaded_token(self, data, result):
         return result is data["token"]
+
+
+# ---- result classes: post_load = the attrs constructor applied to exactly the loaded fields --------------------------------------
+ER = "ahbicht.models.evaluation_results:"
+from ahbicht.models.condition_nodes import EvaluatedFormatConstraint  # noqa: E402
+from ahbicht.models.evaluation_results import (AhbExpressionEvaluationResult, FormatConstraintEvaluationResult,  # noqa: E402
+                                               RequirementConstraintEvaluationResult)
+from ahbicht.models.categorized_key_extract import CategorizedKeyExtract  # noqa: E402
+
+
+@contract(ER + "RequirementConstraintEvaluationResultSchema.deserialize", prop=["C19"])
+class LoadRcResult:
+    """every loaded field - a bool or null (undetermined), a str or null - arrives unchanged in the attribute of its own
+    name; the attrs validators accept null for all four"""
+    params = dict(self=SCHEMA, data=record(requirement_constraints_fulfilled=Opt(Bool()), requirement_is_conditional=Opt(Bool()),
+                                           format_constraints_expression=Opt(Str()), hints=Opt(Str())))
+    raises = {}
+    call_native = _native(ER + "RequirementConstraintEvaluationResultSchema.deserialize")
+
+    def post_fieldwise(self, data, result):
+        return isinstance(result, RequirementConstraintEvaluationResult) \
+            and result.requirement_constraints_fulfilled is data["requirement_constraints_fulfilled"] \
+            and result.requirement_is_conditional is data["requirement_is_conditional"] \
+            and result.format_constraints_expression == data["format_constraints_expression"] \
+            and result.hints == data["hints"]
+
+
+@contract(ER + "FormatConstraintEvaluationResultSchema.deserialize", prop=["C19"])
+class LoadFcResult:
+    params = dict(self=SCHEMA, data=record(format_constraints_fulfilled=Bool(), error_message=Opt(Str())))
+    raises = {}
+    call_native = _native(ER + "FormatConstraintEvaluationResultSchema.deserialize")
+
+    def post_fieldwise(self, data, result):
+        return isinstance(result, FormatConstraintEvaluationResult) \
+            and result.format_constraints_fulfilled is data["format_constraints_fulfilled"] \
+            and result.error_message == data["error_message"]
+
+
+@contract(ER + "AhbExpressionEvaluationResultSchema.deserialize", prop=["C19"])
+class LoadAhbResult:
+    """the three nested objects (already built by the nested schemata) become the three attributes, none swapped"""
+    params = dict(self=SCHEMA, data=record(requirement_indicator=OneOfEnums("ModalMark", "PrefixOperator"),
+                                           requirement_constraint_evaluation_result=Inst("RequirementConstraintEvaluationResult"),
+                                           format_constraint_evaluation_result=Inst("FormatConstraintEvaluationResult")))
+    raises = {}
+    call_native = _native(ER + "AhbExpressionEvaluationResultSchema.deserialize")
+
+    def post_fieldwise(self, data, result):
+        return isinstance(result, AhbExpressionEvaluationResult) \
+            and result.requirement_indicator == data["requirement_indicator"] \
+            and result.requirement_constraint_evaluation_result is data["requirement_constraint_evaluation_result"] \
+            and result.format_constraint_evaluation_result is data["format_constraint_evaluation_result"]
+
+
+@contract("ahbicht.models.condition_nodes:EvaluatedFormatConstraintSchema.deserialize", prop=["C19"])
+class LoadEfc:
+    params = dict(self=SCHEMA, data=record(format_constraint_fulfilled=Bool(), error_message=Opt(Str())))
+    raises = {}
+    call_native = _native("ahbicht.models.condition_nodes:EvaluatedFormatConstraintSchema.deserialize")
+
+    def post_fieldwise(self, data, result):
+        return isinstance(result, EvaluatedFormatConstraint) \
+            and result.format_constraint_fulfilled is data["format_constraint_fulfilled"] \
+            and result.error_message == data["error_message"]
+
+
+@contract("ahbicht.models.categorized_key_extract:CategorizedKeyExtractSchema.deserialize", prop=["C19"])
+class LoadExtract:
+    """the five loaded lists become the five attributes of their own names: same list objects, hence same order and
+    multiplicity (no sanitising on load)"""
+    params = dict(self=SCHEMA, data=record(hint_keys=opaque("inst:list"), format_constraint_keys=opaque("inst:list"),
+                                           requirement_constraint_keys=opaque("inst:list"), package_keys=opaque("inst:list"),
+                                           time_condition_keys=opaque("inst:list")))
+    raises = {}
+    call_native = _native("ahbicht.models.categorized_key_extract:CategorizedKeyExtractSchema.deserialize")
+
+    def post_fieldwise(self, data, result):
+        return isinstance(result, CategorizedKeyExtract) \
+            and result.hint_keys is data["hint_keys"] \
+            and result.format_constraint_keys is data["format_constraint_keys"] \
+            and result.requirement_constraint_keys is data["requirement_constraint_keys"] \
+            and result.package_keys is data["package_keys"] \
+            and result.time_condition_keys is data["time_condition_keys"]
+
+
+# ---- requirement indicator: dump writes the upper-case value, load finds the member again ----------------------------------------
+EN = "ahbicht.models.enums:RequirementIndicatorSchema."
+
+
+@contract(EN + "post_dump", prop=["C19"])
+class IndicatorPostDump:
+    """A-MARSHMALLOW: fields.String dumps a str-mixed enum member as str(member) = its value (S3); the hook upper-cases"""
+    params = dict(self=SCHEMA, data=record(value=Str()))
+    raises = {}
+    call_native = _native(EN + "post_dump")
+
+    def post_upper(self, data, result):
+        return result == data["value"].upper()
+
+
+@contract(EN + "pre_load", prop=["C19"])
+class IndicatorPreLoad:
+    params = dict(self=SCHEMA, data=Str())
+    raises = {}
+    call_native = _native(EN + "pre_load")
+
+    def post_wraps(self, data, result):
+        return result["value"] == data
+
+
+@contract(EN + "post_load", prop=["C19"], key=EN + "post_load#modal")
+class IndicatorPostLoadModal:
+    """the value of a modal mark loads as that modal mark"""
+    params = dict(self=SCHEMA, data=Raw(lambda ex, st, n: _indicator_value(ex, st, n, "ModalMark")))
+    raises = {}
+    call_native = _native(EN + "post_load")
+
+    def post_member_of_its_value(self, data, result):
+        return isinstance(result, ModalMark) and result.value == data["value"]
+
+
+@contract(EN + "post_load", prop=["C19"], key=EN + "post_load#prefix")
+class IndicatorPostLoadPrefix:
+    """the value of a prefix operator loads as that prefix operator (no modal mark has the value X, O or U)"""
+    params = dict(self=SCHEMA, data=Raw(lambda ex, st, n: _indicator_value(ex, st, n, "PrefixOperator")))
+    raises = {}
+    call_native = _native(EN + "post_load")
+
+    def post_member_of_its_value(self, data, result):
+        return isinstance(result, PrefixOperator) and result.value == data["value"]
+
+
+def _indicator_value(ex, st, name, cls):
+    """{"value": v} where v is the value of some member of `cls` (any of them)"""
+    from pyvc.values import SV, mk_s
+    vals = [v for _n, v in ex.repo.enum_members(cls)]
+    s = ex.fresh(name + ".value", z3.StringSort())
+    st.assume(z3.Or(*[s == z3.StringVal(v) for v in vals]))
+    return ex.alloc(st, DictObj([(sv_str("value"), SV(mk_s(s), "str"))]))
